@@ -19,7 +19,7 @@ from vplib.common import VERIF
 
 MANIFEST = dict(
     category="proof",
-    text="Coq theorems (25, all closed under the global context) about a re-entrant model of the executor's select machine (initialize_select, handle_select_continuation, ensure_select_start_time, process_select_sources, handle_select_timeout/process/receive, scan_mailbox_for_message, call_receive_function, handle_receive_result, complete_select, check_expired_timeouts, the notify_message/notify_result/mark_active wake-ups, the failure paths of Worker::notify_result and Executor::step, the Action a slice returns; a filter is an oracle consulted through the same two-entry protocol as the code). For EVERY history of entries and arrivals (messages, results, failures, wake-ups; arbitrary clock values) and every filter oracle: (1) select_refines_spec: an entry that completes the select completes with select_spec evaluated on the state AT THAT ENTRY - the first source in written order that is ready: a delivered awaited result, the earliest mailbox message of a receive source's type that its filter accepts, nil for a timeout whose duration has elapsed since the select started waiting - and the mailbox afterwards is that entry's mailbox minus exactly the taken message, order preserved (untaken_preserved_in_order); (2) an entry parks the process only when select_spec says Wait; it fails the process only when select_spec says Fail, and a failing filter is only ever called at an entry whose select_spec is Fail; (3) cursor_skips_only_rejected; (4) verdict_is_only_a_verdict (runs and spec); (5) timeout_not_early (monotone clock; durations outside i64 are clamped to 2^63-1 ms as in the code); (6) the machine never reaches an index panic; (7) the premises the protocol cone (sys/*.v, C04/C15) assumes of a VM time slice, proved of the machine: parks_only_after_full_scan / never_parks_with_acceptable_message (park_honest: a slice parks only with every receive cursor at the end of the mailbox), await_slice_has_not_started (the slice returning Action::Await has its start time unset and parks), never_parks_with_due_timeout / parked_not_expired_at_same_clock (time_honest, for the slice that parks; the unconditional reading is shown false by an Example and on the real code), dead_process_runs_no_entry (await_honest a), and for the code since 09625d4: awaiting_keys_subset_of_current_sources (invariant), complete_select_clears_process_sources, completed_select_awaits_nothing, await_slice_leaves_only_its_targets (await_honest b). The failure of an awaited process is an asynchronous kill in the code (it pre-empts even a ready higher-priority source) and a failing filter cannot be pre-empted by a source that became ready while it ran: both are stated explicitly in props/C05.v, not as priority. Await protocol of the environment (pending_awaits): await_protocol_delivers_all proved for the merging code in /repo (F8 fixed, 5c787ac), refutation kept for the replacing code. F45 (a completed select kept awaiting; a later failure killed the process; fixed, 09625d4): completed_select_survives proved for the repaired code, refutation kept for the code before it. The model is tied to the code by differential execution against a real Executor after every operation of generated histories (select state, cursors, start time, mailbox, awaiting map, scheduling flags, next_timeout_ms, result, and the Action returned by each slice); select_spec (python reading AND the extracted Coq function) and every protocol-cone premise are additionally evaluated on the REAL executor's states, with no model involved.",
+    text="Coq theorems (28, all closed under the global context) about a re-entrant model of the executor's select machine (initialize_select, handle_select_continuation, ensure_select_start_time, process_select_sources, handle_select_timeout/process/receive, scan_mailbox_for_message, call_receive_function, handle_receive_result, complete_select, check_expired_timeouts, the notify_message/notify_result/mark_active wake-ups, the failure paths of Worker::notify_result and Executor::step, the Action a slice returns; a filter is an oracle consulted through the same two-entry protocol as the code). For EVERY history of entries and arrivals (messages, results, failures, wake-ups; arbitrary clock values) and every filter oracle: (1) select_refines_spec: an entry that completes the select completes with select_spec evaluated on the state AT THAT ENTRY - the first source in written order that is ready: a delivered awaited result, the earliest mailbox message of a receive source's type that its filter accepts, nil for a timeout whose duration has elapsed since the select started waiting - and the mailbox afterwards is that entry's mailbox minus exactly the taken message, order preserved (untaken_preserved_in_order); (2) an entry parks the process only when select_spec says Wait; it fails the process only when select_spec says Fail, and a failing filter is only ever called at an entry whose select_spec is Fail; (3) cursor_skips_only_rejected; (4) verdict_is_only_a_verdict (runs and spec); (5) timeout_not_early (monotone clock; durations outside i64 are clamped to 2^63-1 ms as in the code); (6) the machine never reaches an index panic; (7) the premises the protocol cone (sys/*.v, C04/C15) assumes of a VM time slice, proved of the machine: parks_only_after_full_scan / never_parks_with_acceptable_message (park_honest: a slice parks only with every receive cursor at the end of the mailbox), await_slice_has_not_started (the slice returning Action::Await has its start time unset and parks), never_parks_with_due_timeout / parked_not_expired_at_same_clock (time_honest, for the slice that parks; the unconditional reading is shown false by an Example and on the real code), dead_process_runs_no_entry (await_honest a), reparks_until_all_reported / completes_only_after_all_reported / parked_started_select_is_fully_scanned (code since 8388832, F72: Process.unreported_awaits - a select woken before the await has reported every process source parks again without evaluating anything, so park_honest clause 1 is conditional on the start time being set), and for the code since 09625d4: awaiting_keys_subset_of_current_sources (invariant), complete_select_clears_process_sources, completed_select_awaits_nothing, await_slice_leaves_only_its_targets (await_honest b). The failure of an awaited process is an asynchronous kill in the code (it pre-empts even a ready higher-priority source) and a failing filter cannot be pre-empted by a source that became ready while it ran: both are stated explicitly in props/C05.v, not as priority. Await protocol of the environment (pending_awaits): await_protocol_delivers_all proved for the merging code in /repo (F8 fixed, 5c787ac), refutation kept for the replacing code. F45 (a completed select kept awaiting; a later failure killed the process; fixed, 09625d4): completed_select_survives proved for the repaired code, refutation kept for the code before it. The model is tied to the code by differential execution against a real Executor after every operation of generated histories (select state, cursors, start time, mailbox, awaiting map, unreported-awaits set, scheduling flags, next_timeout_ms, result, and the Action returned by each slice); select_spec (python reading AND the extracted Coq function) and every protocol-cone premise are additionally evaluated on the REAL executor's states, with no model involved; the reproducers of F72 and F45 are must-pass probes on the real Environment with 1, 2 and 3 workers.",
     design_ref="§5 C05",
     note="Trusted: Coq kernel, extraction, OCaml driver, Rust harness qv_select (plays the worker through the executor's public API; the failure of an awaited process is applied as worker.rs does; --env drives the real Environment with fake worker handles), generators. Not modelled: the frame/instruction check against nested selects, refcounts (C06), the operand stack beyond the pushed value, the rest of the program around the select (one select per run: 'a process that finished normally is never queued again' and 'the next select starts from the awaiting map the previous one left' are the glue to multi-select programs; the latter is completed_select_awaits_nothing). Readiness of a process source means 'its result has been delivered to the awaiter' (awaiting[p] = Some): how and when results get delivered is the await protocol (F8 here; F72 under C03/C04). The model keeps a switch fix45 (code before/after 09625d4) and the check probes which behaviour the real code has; the protocol-cone premise theorems about `awaiting` are for fix45 = true. sys's time_honest is stated unconditionally there; it is proved (and true of the real code) only for the slice that parks, which is all its use needs - see the header of props/C05.v.",
     technique="Coq proof (refinement of a spec by a re-entrant machine via an invariant over all histories) + model/code correspondence by differential execution + spec-as-oracle on real outcomes + metamorphic twin runs + exhaustive small scope (thorough)",
@@ -140,6 +140,8 @@ def render_op(op, fixed45):
         return "(%s %d)" % ("failc" if fixed45 else "fail", op[1])
     if k in ("active", "local"):
         return "(%s)" % k
+    if k == "report":
+        return "(report %s)" % " ".join(str(x) for x in op[1])
     return "(" + " ".join(str(x) for x in op) + ")"
 
 
@@ -226,6 +228,7 @@ def parse_real_dump(d):
     return dict(q=int(field(d, "q")[1]), s=int(field(d, "s")[1]), sel=sel,
                 mb=tuple(real_msg(m) for m in field(d, "mb")[1:]),
                 aw=tuple(sorted((int(k) - 100, None if v == "-" else real_value(v)) for k, v in field(d, "aw")[1:])),
+                un=tuple(int(k) - 100 for k in field(d, "un")[1:]),
                 err=err, ok=ok, nt=None if nt == "-" else int(nt))
 
 
@@ -257,6 +260,7 @@ def parse_model_dump(d):
                 mb=tuple((int(m[0]), int(m[1])) for m in field(d, "mb")[1:]),
                 aw=tuple(sorted((int(k), None if v == "-" else parse_model_value(v)) for k, v in field(d, "aw")[1:])),
                 err=None if err == "-" else (err[0], err[1] if err[0] == "e" else int(err[1])),
+                un=tuple(int(k) for k in field(d, "un")[1:]),
                 val=None if val == "-" else parse_model_value(val), nt=None if nt == "-" else int(nt),
                 act=None if act is None or act[1:] == ["-"] else tuple(int(x) for x in act[1:]))
 
@@ -346,7 +350,17 @@ def gen_case(rng, max_src=4, max_msgs=6, local_p=0.2):
     for k in range(nproc):
         proc_fate[k] = rng.choice(["res", "res", "res", "fail", "never", "nilres"])
     done_procs = set()
-    state = dict(active_left=1 if nproc and not case["local"] else 0, inited=False)
+    state = dict(active_left=1 if nproc else 0, inited=False, reported_all=not nproc)
+    allk = sorted({s_["k"] for s_ in srcs if s_["kind"] == "proc"})
+
+    def snapshot(full_p=0.8):
+        # the answer to the Await (Worker::update_await_results): report the state of the targets it
+        # names (all of them in one merged answer; a subset models an overtaking later answer), wake
+        ks = allk if rng.random() < full_p else rng.sample(allk, rng.randint(0, len(allk)))
+        if set(ks) >= set(allk):
+            state["reported_all"] = True
+        ops.append(("report", tuple(ks)))
+        ops.append(("active",))
     timeouts = [eff_timeout(s["d"]) for s in srcs if s["kind"] == "timeout" and eff_timeout(s["d"]) < 10 ** 7]
 
     def arrivals(n, allow_fail=True):
@@ -358,8 +372,8 @@ def gen_case(rng, max_src=4, max_msgs=6, local_p=0.2):
                 live = [k for k in range(nproc) if k not in done_procs and proc_fate[k] != "never"]
                 if live:
                     choices += ["proc"] * 2
-                if state["active_left"]:
-                    choices += ["active"]
+                if state["active_left"] or not state["reported_all"]:
+                    choices += ["active"] * 5
             if not choices:
                 return
             c = rng.choice(choices)
@@ -367,7 +381,7 @@ def gen_case(rng, max_src=4, max_msgs=6, local_p=0.2):
                 ops.append(("msg", pending.pop(0)))
             elif c == "active":
                 state["active_left"] = 0
-                ops.append(("active",))
+                snapshot()
             else:
                 k = rng.choice(live)
                 done_procs.add(k)
@@ -376,6 +390,7 @@ def gen_case(rng, max_src=4, max_msgs=6, local_p=0.2):
                     ops.append(("hmsg", k, 0 if fate == "fail" else 1 + k))
                 elif fate == "fail":
                     if allow_fail:
+                        ops.append(("report", (k,)))
                         ops.append(("fail", k))
                 elif fate == "nilres":
                     ops.append(("res", k, None))
@@ -409,6 +424,8 @@ def gen_case(rng, max_src=4, max_msgs=6, local_p=0.2):
             ops.append(("ff", t))
     if rng.random() < 0.85:
         arrivals(rng.choice([0, 0, 1]))
+        if nproc and not state["reported_all"] and rng.random() < 0.8:
+            snapshot(1.0)
         advance()
         ops.append(("drive", t, 14))
     if rng.random() < 0.35:
@@ -444,6 +461,7 @@ class Runner:
                            spec_evals_complete=0, spec_evals_wait=0, spec_evals_fail=0, model_states_compared=0,
                            local_cases=0, drained=0, twins=0, refcount_violations_seen=0, failures_delivered=0,
                            timeouts_checked_not_early=0, clock_back_steps=0, multi_entry_steps=0,
+                           reparks_before_all_reported=0, premise_repark_start_unset=0, f72_probe=0,
                            actions_compared=0, await_actions=0, premise_park_full_scan=0, premise_park_no_due_timeout=0,
                            premise_await_start_unset=0, premise_await_keys_in_targets=0,
                            premise_no_slice_for_dead_process=0, premise_completion_clears_sources=0)
@@ -600,6 +618,8 @@ class Runner:
                         killed_after = dict(k=op[1], how="worker notify_result Err arm", value=comp_value)
             elif name == "active":
                 evs.append("(active)")
+            elif name == "report":
+                evs.append("(report %s)" % " ".join(str(x) for x in op[1]))
             elif name == "step":
                 now = int(field(rec, "now")[1])
                 q = int(field(rec, "q")[1])
@@ -698,8 +718,8 @@ class Runner:
             c["await_actions"] += 1
             # park_honest, 2nd clause: the slice that returns Await has not started evaluating
             c["premise_await_start_unset"] += 1
-            if d["sel"] is None or d["sel"]["start"] is not None or not parked:
-                a["oracle_failures"].append(dict(oracle="premise:await-slice-has-start-unset-and-parks", real=_jsonable(d)))
+            if d["sel"] is None or d["sel"]["start"] is not None or not parked or d["un"] != real_act:
+                a["oracle_failures"].append(dict(oracle="premise:await-slice-has-start-unset-parks-and-records-unreported-targets", real=_jsonable(d)))
             # await_honest (b): every key left in `awaiting` is a target of this Await
             c["premise_await_keys_in_targets"] += 1
             stale = [k for k, _ in d["aw"] if k not in real_act]
@@ -707,6 +727,12 @@ class Runner:
             if (stale and self.fixed45) or real_act != exp:
                 a["oracle_failures"].append(dict(oracle="premise:await-leaves-only-its-targets", stale=stale,
                                                  targets=list(real_act), written=list(exp)))
+        elif parked and d["un"]:
+            # a select woken before every awaited process was reported parks again: start still unset
+            # (sys park_honest clause 1 is conditional on sl_start <> None for exactly this slice)
+            c["premise_repark_start_unset"] += 1
+            if d["sel"]["start"] is not None or d["sel"]["recv"] is not None:
+                a["oracle_failures"].append(dict(oracle="premise:repark-has-start-unset", real=_jsonable(d)))
         elif parked:
             sel = d["sel"]
             # park_honest, 1st clause: parked by a pass => every receive cursor at the end of the mailbox
@@ -740,6 +766,15 @@ class Runner:
             st["arr_between"] += 1
 
     def real_entry_oracle(self, case, a, pre, post, now, val, init_time):
+        if pre["un"]:
+            # the await has not reported every process source yet (since 8388832): the woken select
+            # parks again WITHOUT evaluating anything, whatever the specification says of the sources
+            self.counts["reparks_before_all_reported"] += 1
+            same = all(post[k] == pre[k] for k in ("sel", "mb", "aw", "un", "err"))
+            if not (post["s"] == 1 and post["q"] == 0 and same and val == "-"):
+                a["oracle_failures"].append(dict(oracle="reparks-until-every-awaited-process-is-reported",
+                                                 pre=_jsonable(pre), post=_jsonable(post)))
+            return
         start = pre["sel"]["start"] if pre["sel"]["start"] is not None else now
         aw = {k: v for k, v in pre["aw"]}
         # the verdict the machine is about to pop: a failing filter kills before the entry
@@ -882,7 +917,7 @@ class Runner:
             self.report(case, "correspondence-broken", dict(what="model driver output", model=mline[:500]), no_input=not a["oracle_failures"])
             return
         mism = None
-        init = dict(q=1, s=0, sel=None, mb=a["mb0"], aw=(), err=None, val=None, nt=None)
+        init = dict(q=1, s=0, sel=None, mb=a["mb0"], aw=(), un=(), err=None, val=None, nt=None)
         selected = False
         for cp in a["checkpoints"]:
             if cp["name"] == "to-select":
@@ -895,7 +930,7 @@ class Runner:
             if "panic" in md:
                 mism = ("model panicked / stopped", cp, md)
                 break
-            keys = ["aw", "sel"]
+            keys = ["aw", "sel", "un"]
             if not cp["completed"]:
                 keys += ["q", "s", "nt"]
             if not (cp["completed"] and case["drain"]):
@@ -1213,13 +1248,37 @@ def case_to_corpus(case):
 
 
 def probe_fixed45(ctx, qs):
-    rc, out = ctx.run_bin(qs, ['"p0 = @{ !\'int }, ! [p0, 0]" (ops (to-select 0) (step 1 0) (active) (drive 3 10) (finish 3 100))'])
+    rc, out = ctx.run_bin(qs, ['"p0 = @{ !\'int }, ! [p0, 0]" (ops (to-select 0) (step 1 0) (report 0) (active) (drive 3 10) (finish 3 100))'])
     try:
         recs, _ = split_records(sexpr.parse(out[0]))
         fin = parse_real_dump(field(recs[-1][1], "d"))
         return len(fin["aw"]) == 0
     except Exception:                                  # noqa
         return False
+
+
+F72_SOURCE = "p1 = @#{ 11 }, p3 = @#{ !#'int, 33 }, !p1 =first, 1 p3, [first, ! [p1, p3]]"
+F45_SOURCE = "p = @{ !'int, [1, 0] __integer_divide__ }, ! [p, 10] =a, 1 p, ! [50] =b, 42"
+
+
+def run_probes(ctx, cov):
+    """Must-pass probes on the REAL Environment + Workers (harness qv_equal --run N): the reproducers of
+    the fixed findings F72 (a multi-target await completed with a lower-priority result) and F45."""
+    qe = ctx.harness("qv_equal")
+    if not qe:
+        return
+    res = {}
+    for name, src, want in (("F72", F72_SOURCE, "(ok (t - (- -) (i 11) (i 11)))"), ("F45", F45_SOURCE, "(ok (i 42))")):
+        for nw in (1, 2, 3):
+            rc, out = ctx.run_bin(qe, [sexpr.quote(src)], args=["--run", str(nw)], timeout=120)
+            got = out[0] if out else "(no output)"
+            res["%s/%d workers" % (name, nw)] = got
+            if got != want:
+                ctx.violation(dict(kind="impl-violation", oracle="must-pass probe %s" % name, source=src, workers=nw,
+                                   expected=want, real=got,
+                                   theorem="C05_completes_only_after_all_reported / C05_reparks_until_all_reported" if name == "F72"
+                                   else "C05_completed_select_survives_repaired"), finding_key=name)
+    cov["must_pass_probes"] = res
 
 
 def run(ctx):
@@ -1241,6 +1300,7 @@ def run(ctx):
             ctx.cov.update({"evaluations": 1, "replayed": ctx.replay_path, "disagreements_checked": runner.disagreements})
         return
     fixed8 = run_env(ctx, qs, drv, ctx.cov)
+    run_probes(ctx, ctx.cov)
     corpus = corpus_cases()
     if corpus:
         runner.batch(corpus)
